@@ -283,7 +283,36 @@ var lambdaLists = []struct{ params, body, call string }{
 	{"(a &optional (b (list 1 (quote q))) &rest r)", "(list a b r)", "(%s 1) (%s 1 2 3)"},
 }
 
+
+// firstVersion: with probability 1/3 the name is defined a first time with another lambda list, another documentation
+// string and another body; the definition that follows replaces it. What is saved must be the last definition only
+// (lambda list, documentation and body of one and the same definition).
+func (w *world) firstVersion(definer, name string) {
+	if w.pick("redefine", 3) != 0 {
+		return
+	}
+	params := []string{"p", "q", "r", "s"}[:1+w.pick("oldarity", 4)]
+	ll := strings.Join(params, " ")
+	switch w.pick("oldshape", 4) {
+	case 0:
+		ll = strings.Join(params[:len(params)-1], " ") + " &optional (" + params[len(params)-1] + " 9)"
+	case 1:
+		ll += " &key (oldkey 5)"
+	}
+	src := "(" + definer + " " + name + " (" + strings.TrimSpace(ll) + ")"
+	if w.pick("olddoc", 2) == 0 {
+		src += " \"old doc\""
+	}
+	if definer == "defmacro" {
+		src += " `(list " + ",p" + " 'old))"
+	} else {
+		src += " (list " + strings.Join(params, " ") + " 'old))"
+	}
+	w.add("re"+definer, name, src)
+}
+
 func (w *world) defun(i int) {
+	w.firstVersion("defun", w.sigs[i].Name)
 	sig := w.sigs[i]
 	switch {
 	case sig.Arity > 0:
@@ -327,6 +356,7 @@ func (w *world) defun(i int) {
 func (w *world) defMacro() {
 	w.nmacro++
 	name := fmt.Sprintf("zm%s%d", w.letter(), w.nmacro)
+	w.firstVersion("defmacro", name)
 	var src, probe string
 	switch w.pick("macro", 4) {
 	case 0:
